@@ -49,6 +49,9 @@ type World struct {
 	OpFilter func(n *Node, op *types.Operation) bool
 	// Trace of driver actions (for witnesses).
 	Trace []string
+	// ColdHook, if set, runs before an operation is fed to node n's machine (restart injection).
+	// If it returns a non-nil result, that result is used instead of feeding the operation.
+	ColdHook func(n *Node, op *types.Operation) (*types.Operation, error)
 	// AfterStep, if set, is called after every executed action of Run.
 	AfterStep func(a Action)
 }
@@ -233,9 +236,19 @@ func (w *World) HandleOp(n *Node, op *types.Operation) error {
 			return err
 		}
 	} else {
-		r, err := w.ColdResult(n, op, UseOpLog)
-		if err != nil {
-			return fmt.Errorf("cold: %w", err)
+		var r *types.Operation
+		var err error
+		if w.ColdHook != nil {
+			r, err = w.ColdHook(n, op)
+			if err != nil {
+				return fmt.Errorf("cold hook: %w", err)
+			}
+		}
+		if r == nil {
+			r, err = w.ColdResult(n, op, UseOpLog)
+			if err != nil {
+				return fmt.Errorf("cold: %w", err)
+			}
 		}
 		res = r
 		if w.ResultHook != nil {
